@@ -168,7 +168,7 @@ class C08(object):
         return {"name": "C08", "enabled": ["C08"], "gates": dict(loop=False, join_partial=False, join_in_loop=False),
                 "force_gates": {"loop": False, "join_partial": False}, "acyclic": True,
                 "faults": dict(p_fail=None), "world": dict(kf_props=kf_props()),
-                "forbid_features": ["join_partial", "loop"]}
+                "forbid_features": ["join_partial", "loop"], "outcome_per_task": True}
 
     def evaluate(self, seed, tier):
         profile = self.profile(seed, tier)
@@ -437,7 +437,9 @@ class C09(object):
                 a = wu.inflight[aid]
                 x = a["x"]
                 shape = (prog["tasks"].get(a["task"]) or {}).get("shape", "token")
-                status, result = sp.outcome(a["task"], x.visit, x.attempt, a["item"], shape)
+                seen = sorted(wu.ledger.routes_seen.get(x.task, ()))
+                rk = seen.index(x.route) if x.route in seen else 0
+                status, result = sp.outcome(a["task"], x.visit, x.attempt, a["item"], shape, rk)
                 do(["deliver", aid, status, result])
                 dispatch_all()
             do(["final"])
@@ -535,7 +537,7 @@ class RerunScheduler(driver.Scheduler):
         if forced:
             _, result = self.outcome(a["task"], 1, 1, a["item"], shape)
             return "succeeded", result
-        return self.outcome(a["task"], x.visit, x.attempt, a["item"], shape)
+        return self.outcome(a["task"], x.visit, x.attempt, a["item"], shape, self.route_key(x))
 
     def inject(self):
         w = self.world
